@@ -185,3 +185,70 @@ Theorem C13_lazy_dirty_exactly_one : forall ttl st id v ops,
   lruns (fst (lrun ttl st2 ops)) = lruns st2 /\ all_hits v ops (snd (lrun ttl st2 ops)).
 Proof. exact lazy_dirty_exactly_one. Qed.
 Print Assumptions C13_lazy_dirty_exactly_one.
+
+(* ---- T7 families: several functions decorated through one or several decorator objects.  One cache machine per
+   decorated function; in every interleaved history function f observes (results, size of its cache) exactly what
+   it observes when the operations of all other functions are deleted: the caches never interact *)
+Theorem C13_family_step_isolated : forall K keqb kfs valids caps (st : mstate K) f o g,
+  g <> f -> nth_error (mfns (fst (mstep K keqb kfs valids caps st (f, o)))) g = nth_error (mfns st) g.
+Proof. exact mstep_other. Qed.
+Print Assumptions C13_family_step_isolated.
+
+Theorem C13_family_projection : forall K keqb kfs valids caps n ops f, (f < n)%nat ->
+  nth_error (mfns (fst (mrun K keqb kfs valids caps (minit n) ops))) f =
+    Some (fst (arun K keqb (kfs f) (valids f) (caps f) ainit (proj f ops))) /\
+  obs_on f ops (snd (mrun K keqb kfs valids caps (minit n) ops)) =
+    snd (arun K keqb (kfs f) (valids f) (caps f) ainit (proj f ops)).
+Proof. exact family_projection. Qed.
+Print Assumptions C13_family_projection.
+
+(* a miss of function f runs the body of function f: the log entries tagged f are f's own body runs, in order *)
+Theorem C13_family_body_runs_own : forall K keqb kfs valids caps n ops f, (f < n)%nat ->
+  log_of f (mlog (fst (mrun K keqb kfs valids caps (minit n) ops))) =
+  runs (fst (arun K keqb (kfs f) (valids f) (caps f) ainit (proj f ops))).
+Proof. exact family_body_runs_own. Qed.
+Print Assumptions C13_family_body_runs_own.
+
+(* every value f is served from its cache was computed by the body of an earlier call of f with the same key *)
+Theorem C13_family_no_cross_talk : forall K keqb kfs valids caps, (forall a b : K, keqb a b = true <-> a = b) ->
+  forall n ops f, (f < n)%nat ->
+  hits_justified K (kfs f) (valids f) [] (proj f ops) (obs_on f ops (snd (mrun K keqb kfs valids caps (minit n) ops))).
+Proof. exact family_no_cross_talk. Qed.
+Print Assumptions C13_family_no_cross_talk.
+
+(* the decorator object carries only configuration: a family decorated through shared objects behaves exactly
+   like the same family with one decorator call per function *)
+Theorem C13_shared_decorator_unobservable : forall src decos fns ops,
+  run_with src (CAlruM decos fns ops) =
+  run_with src (CAlruM (map (fun fa => nth (fst fa) decos adflt) fns) (own_decos 0 fns) ops).
+Proof. exact shared_decorator_unobservable. Qed.
+Print Assumptions C13_shared_decorator_unobservable.
+
+(* methods under acached_per_instance / functions under alazy_constant: an operation on one of them (other than
+   the death of an instance / a clock tick, which are common to all) leaves the others untouched; Drop of an idle
+   instance removes it from every method's cache *)
+Theorem C13_family_inst_step_isolated : forall K keqb kfs valids (st : mpstate K) f o g,
+  (forall i, o <> PDrop i) -> g <> f ->
+  nth_error (mpfns (fst (mpstep K keqb kfs valids st (f, o)))) g = nth_error (mpfns st) g.
+Proof. exact mpstep_other. Qed.
+Print Assumptions C13_family_inst_step_isolated.
+
+Theorem C13_family_inst_drop : forall K keqb kfs valids (st : mpstate K) f i,
+  let st' := fst (mpstep K keqb kfs valids st (f, PDrop i)) in
+  (existsb (fun p => inst_busy K (pinfl p) i) (mpfns st) = true -> st' = st) /\
+  (existsb (fun p => inst_busy K (pinfl p) i) (mpfns st) = false ->
+   forall g p, nth_error (mpfns st) g = Some p ->
+     nth_error (mpfns st') g = Some (mkP (p_remove K (pstore p) i) (pinfl p) (pruns p))).
+Proof. exact mpstep_drop. Qed.
+Print Assumptions C13_family_inst_drop.
+
+Theorem C13_family_lazy_step_isolated : forall ttls (st : mlstate) f o g,
+  (forall dt, o <> LTick dt) -> g <> f ->
+  nth_error (mlfns (fst (mlstep ttls st (f, o)))) g = nth_error (mlfns st) g.
+Proof. exact mlstep_other. Qed.
+Print Assumptions C13_family_lazy_step_isolated.
+
+Theorem C13_family_lazy_projection : forall ttls n now0 ops f, (f < n)%nat ->
+  lobs_on f ops (snd (mlrun ttls (mlinit n now0) ops)) = snd (lrun (ttls f) (linit now0) (lproj f ops)).
+Proof. exact lazy_family_projection. Qed.
+Print Assumptions C13_family_lazy_projection.
